@@ -809,7 +809,7 @@ def check_separators(ctx, rep):
                 continue
             gs = G.guards_at(b, bi)
             # only separators written from inside an enumerate loop
-            loops = [g for g in gs if g.a is not None and g.a.kind == "discr" and g.op == "Eq" and g.b.v == 1 and g.a.args and "Enumerate" in repr(g.a.args[0])]
+            loops = [g for g in gs if g.a is not None and g.a.kind == "discr" and g.op == "Eq" and g.b.v == 1 and g.a.args and ("Enumerate" in repr(g.a.args[0]) or "Peekable" in repr(g.a.args[0]))]
             if not loops:
                 continue
             n += 1
@@ -835,6 +835,16 @@ def check_separators(ctx, rep):
                 elif g.op in ("Le", "Lt") and g.b is not None and "len" in repr(g.b):
                     why = "guard is %r, expected index < len - 1" % g
             form = "after each element but the last (index < len - 1)"
+            # the peekable spelling of the same thing: after the element, `if it.peek().is_some() { separator }` on the loop's own iterator
+            if not ok and "Peekable" in it:
+                for g in gs:
+                    if g.op == "True" and g.a is not None and g.a.kind == "call" and g.a.v.endswith("Option::is_some") and g.a.args and g.a.args[0].kind == "call" and g.a.args[0].v.endswith("Peekable::peek"):
+                        itn = repr(loops[0].a.args[0].args[0]) if loops[0].a.args[0].args else ""
+                        if repr(g.a.args[0].args[0]) == itn or itn in repr(g.a.args[0].args[0]) or repr(g.a.args[0].args[0]) in itn:
+                            ok = True
+                            form = "after each element that has a successor (peek().is_some())"
+                        else:
+                            why = "peek() is taken on another iterator than the one the loop advances"
             # where the separator sits in the iteration: the element writes are the other calls that receive the writer
             hdr = loops[0].block  # innermost enumerate loop around the separator
             wr = repr(G.describe(b, t["args"][0]))
